@@ -4,6 +4,8 @@
    TPLSimple evaluated with the dimension AT CONSTRUCTION), `default_arg_bounds` of `CovModel`,
    the interval test `check_arg_in_bounds` / `check_arg_bounds` of `covmodel/tools.py`, and the
    dimension rule of `set_dim` (lat-lon forces 3, `+1` when temporal, `spatial_dim`).
+   In-place histories of one model object (evaluations, `model.dim = d`, `model.<arg> = v`) are the state
+   machine `HState` / `HOp` / `hStep`: setters store first and check against the bounds stored at construction.
    Beside it the *literature* validity condition `litValid` of every family, written out from the class
    docstrings / standard references.  Core Lean only — no Mathlib import in this file.
 
@@ -209,6 +211,94 @@ def litValid (c : Cls) (d : Nat) (p : Params α) : Prop :=
 
 end scalar
 
+/-! ### in-place histories of one model object
+
+`CovModel` keeps no cache: every evaluator (`cor`, `correlation`, `variogram`, `covariance`, `spectral_density`,
+`cov_spatial`, …) reads `self.dim` and the parameter attributes at the time of the call.  The setters
+(`covmodel/base.py`, `covmodel/tools.py: set_dim`) store the new value FIRST and then run `check_arg_bounds()` against
+the bounds stored by `__init__` (`default_opt_arg_bounds()` evaluated with the dimension at construction, never
+recomputed — finding D8); `set_dim` raises for `dim < 1` before anything is stored, forces `3 (+1)` on a lat-lon model
+and warns when `check_dim` fails. -/
+
+section history
+variable {α : Type} [Arith α] [DecidableLT α] [DecidableLE α]
+
+/-- `setattr(model, a, v)` on the parameter record -/
+def Params.set (p : Params α) : Arg → α → Params α
+  | .var, v => { p with var := v }
+  | .lenScale, v => { p with lenScale := v }
+  | .nugget, v => { p with nugget := v }
+  | .nu, v => { p with nu := v }
+  | .alpha, v => { p with alpha := v }
+  | .hurst, v => { p with hurst := v }
+  | .lenLow, v => { p with lenLow := v }
+
+/-- state of one model object: class, the dimension whose `default_opt_arg_bounds` were stored at construction,
+    the current dimension, the dimension forced by lat-lon (`none`: free), the current parameter values -/
+structure HState (α : Type) where
+  cls : Cls
+  boundsDim : Nat
+  dim : Nat
+  forced : Option Nat
+  p : Params α
+
+/-- public operations on a model object -/
+inductive HOp (α : Type)
+  | eval                          -- any read access (variogram, covariance, spectrum, plot, fit residual, …)
+  | setDim (d : Nat)              -- `model.dim = d`
+  | setArg (a : Arg) (v : α)      -- `model.var = v`, `model.len_scale = v`, `model.nugget = v`, `model.<opt_arg> = v`
+
+def HOp.isEval : HOp α → Bool
+  | .eval => true
+  | _ => false
+
+/-- what the caller sees of one operation: invalid-dimension warning, the `(argument, error case)` raised by
+    `check_arg_bounds`, `ValueError` for a dimension below 1 -/
+structure HOut where
+  warn : Bool
+  err : Option (Arg × Nat)
+  dimErr : Bool
+
+def hInit (c : Cls) (d : Nat) (forced : Option Nat) (p : Params α) : HState α := ⟨c, d, d, forced, p⟩
+
+def hStep (s : HState α) : HOp α → HState α × HOut
+  | .eval => (s, ⟨false, none, false⟩)
+  | .setDim d =>
+      let d' := s.forced.getD d
+      if d' < 1 then (s, ⟨false, none, true⟩)
+      else
+        let s' : HState α := { s with dim := d' }
+        (s', ⟨!checkDim s.cls d', firstError (allBounds s.cls s.boundsDim) s.p, false⟩)
+  | .setArg a v =>
+      let s' : HState α := { s with p := s.p.set a v }
+      (s', ⟨false, firstError (allBounds s.cls s.boundsDim) s'.p, false⟩)
+
+def hRun (s : HState α) (ops : List (HOp α)) : HState α := ops.foldl (fun st o => (hStep st o).1) s
+
+/-- state and the outputs of every operation -/
+def hTrace (s : HState α) : List (HOp α) → HState α × List HOut
+  | [] => (s, [])
+  | o :: os =>
+      let r := hStep s o
+      let t := hTrace r.1 os
+      (t.1, r.2 :: t.2)
+
+/-- the state is one the object itself accepts: current dimension passes `check_dim`, current values pass the STORED
+    bounds (what `check_arg_bounds()` would say now) -/
+def hAccepted (s : HState α) : Bool := acceptsAfterSetDim s.cls s.boundsDim s.dim s.p
+
+/-- a freshly constructed model with the same dimension and values is accepted -/
+def hFreshAccepted (s : HState α) : Bool := accepts s.cls s.dim s.p
+
+/-- the classes whose optional-argument bounds do not depend on the dimension -/
+def dimIndepBounds : Cls → Bool
+  | .SuperSpherical => false
+  | .JBessel => false
+  | .TPLSimple => false
+  | _ => true
+
+end history
+
 /-! ### the truncated power-law (TPL) classes: truncation scales and two-term correlation
 
 `TPLCovModel` (`covmodel/tpl_models.py`): every length that enters the correlation is a *rescaled* one —
@@ -332,6 +422,36 @@ def ops (op : String) (j : Json) : Option (Except String Json) :=
         ("result", errJson (firstError (allBounds c d0) p)),
         ("accepts", Json.bool (acceptsAfterSetDim c d0 d1 p)),
         ("fresh_accepts", Json.bool (accepts c d1 p))])
+  | "c02_history" => some (do
+      let c ← getCls j
+      let latlon := match getBool j "latlon" with | .ok b => b | .error _ => false
+      let temporal := match getBool j "temporal" with | .ok b => b | .error _ => false
+      match (← getDims j) with
+      | .error e => return Json.mkObj [("error_kind", Json.str e)]
+      | .ok d =>
+        let p := getParams j c d
+        let kinds ← getNats j "kinds"
+        let args ← getNats j "args"
+        let vals ← getRats j "vals"
+        let argOf : Nat → Arg := fun i => ([Arg.var, .lenScale, .nugget, .nu, .alpha, .hurst, .lenLow][i]?).getD .var
+        let ops : List (HOp Rat) := (List.range kinds.size).map fun i =>
+          match kinds[i]! with
+          | 0 => HOp.eval
+          | 1 => HOp.setDim (args[i]?.getD 0)
+          | _ => HOp.setArg (argOf (args[i]?.getD 0)) (vals[i]?.getD 0)
+        let s0 : HState Rat := hInit c d (if latlon then some (3 + (if temporal then 1 else 0)) else none) p
+        let t := hTrace s0 ops
+        let s := t.1
+        return Json.mkObj [
+          ("construct", errJson (firstError (allBounds c d) p)),
+          ("construct_warn", Json.bool (!checkDim c d)),
+          ("warn", Json.arr (t.2.map fun o => Json.bool o.warn).toArray),
+          ("err", Json.arr (t.2.map fun o => if o.dimErr then Json.str "ValueError" else errJson o.err).toArray),
+          ("dim", Json.num (JsonNumber.fromNat s.dim)),
+          ("bounds_dim", Json.num (JsonNumber.fromNat s.boundsDim)),
+          ("params", rl [s.p.var, s.p.lenScale, s.p.nugget, s.p.nu, s.p.alpha, s.p.hurst, s.p.lenLow]),
+          ("accepted", Json.bool (hAccepted s)),
+          ("fresh_accepted", Json.bool (hFreshAccepted s))])
   | "c02_tpl_mix" => some (do
       let ls ← getFloat j "len_scale"
       let ll ← getFloat j "len_low"
